@@ -23,11 +23,11 @@ type fnDef struct {
 	name    string // registry name; violations use site "stdlib."+name
 	goVar   string // Go variable in package stdlib ("" for constructed functions)
 	fn      function.Function
-	weight  int                                                   // share of the case list
+	weight  int                                                       // share of the case list
 	hint    func(r *rnd, pos, nargs int, prev []cty.Value) *cty.Value // targeted argument for position pos (nil = use the generic generator)
-	sizePos map[int]bool                                          // positions whose number drives an allocation: capped to |n| <= sizeCap
-	fmtPos  int                                                   // position of a printf-style format string (-1 = none); widths/precisions capped to 3 digits
-	bias    []string                                              // type kinds a dynamic parameter is biased to
+	sizePos map[int]bool                                              // positions whose number drives an allocation: capped to |n| <= sizeCap
+	fmtPos  int                                                       // position of a printf-style format string (-1 = none); widths/precisions capped to 3 digits
+	bias    []string                                                  // type kinds a dynamic parameter is biased to
 }
 
 // sizeCap is the stated bound on size-like numeric arguments (repeat counts):
